@@ -9,3 +9,7 @@ CHECKS["C15"] = dict(
     text="Crash-freedom of path evaluation: for each (document shape, path template) shard the real Processor.get_nodes (required and optional match) and exists() are executed symbolically on path TEXT built from symbolic indexes/slice bounds in [-6,6] and documents with symbolic integer leaves; any exception outside the YAMLPathException family on any feasible path is a counterexample, replayed concretely. Crossing shapes with templates under a solver finds the index/None/type pairings that examples miss.",
     note="Shapes: vf/docs.py (28); templates: harness/qcommon.py (67); quick = 39 chosen pairs, thorough = full product. Leaves that the implementation stringifies or hashes are enumerated over small ranges (stated per query).")
 del NA["C15"]
+CHECKS["C12"] = dict(
+    text="Typed comparison rules: Searches.search_matches is executed symbolically for every integer value in [-99,99] against a pool of term spellings for the 8 non-regex operators and compared with a reference model transcribed from the documented rules; short symbolic text values against concrete terms; boolean spellings, regex and containment on finite pools enumerated through the solver; inversion through the real Processor on lists/AoH with 3 symbolic leaves (plain and inverted results partition the candidates in document order); never-raises over pool x pool.",
+    note="Text values are short (<=2 letters quick, <=3 thorough) because str.lower()/title() are modelled over the whole Unicode table; regex/containment/floats only from pools (engine limits). Undocumented typing corners are excluded from the functional claim and listed in evidence.outside_claim.")
+del NA["C12"]
